@@ -13,15 +13,19 @@ ROWS = {
     'tet': [(30, 9), (30, 7), (30, 5), (30, 3), (10, 7), (10, 5), (10, 3), (10, 1)],
     'tetmix': [(1, 1), (2, 2), (1, 2), (2, 3), (1, 3), (2, 4), (1, 4), (2, 5)],
     'mixed': [(1, 1), (1, 2), (1, 3), (1, 4), (2, 1), (2, 2), (2, 3), (2, 5), (2, 6), (2, 7)],
+    'mix3': [(1, 1), (1, 2), (1, 3), (1, 4), (1, 5), (1, 6), (2, 1), (2, 2), (2, 3), (2, 7), (3, 1), (3, 2), (3, 3), (3, 4), (3, 5), (3, 6), (3, 8), (3, 9)],
+    'thin10': [(5, n) for n in range(1, 11)],
     'bad5': [(1, 1), (1, 2), (1, 3), (1, 4), (1, 5)],
     'bigid': [(3000000000, 1), (3000000000, 2), (3000000000, 3), (3000000000, 4)],     # model id 2000000001
 }
-Z3 = {'bigid': True, 'tri2d': False, 'quad2d': False, 'tet': True, 'tetmix': True, 'mixed': True, 'bad5': True}
+Z3 = {'mix3': True, 'thin10': True, 'bigid': True, 'tri2d': False, 'quad2d': False, 'tet': True, 'tetmix': True, 'mixed': True, 'bad5': True}
 SCOLS = ['S11', 'S22', 'S33', 'S12', 'S13', 'S23']
 DCOLS = ['dx', 'dy', 'dz']
 
 
 def coord(k, n):
+    if k == 'thin10':      # a genuinely 3-D (quadratic) element far from the origin with a z extent of a few micro-units
+        return (float(n) + 0.125, float(n * n) - 0.5, 1000.0 + 0.0004 * n)
     return (float(n) + 0.125, float(n * n) - 0.5, (0.25 * n * n * n - n) if Z3[k] else 0.0)
 
 
